@@ -264,7 +264,7 @@ func c05FramesEqual(a, b []c05Frame) bool {
 // ---- A: synthetic ---------------------------------------------------------------------------
 
 func c05Synthetic(t *testing.T, rep *vfReport, r *vfRng) {
-	n := vfScale(700, 25000)
+	n := vfScale(900, 40000)
 	var ops, impl []string
 	for i := 0; i < n; i++ {
 		h := c05Hdr{magic: 0x377f0682, version: 3007000, seq: uint32(r.Intn(5)), salt1: uint32(r.U64()), salt2: uint32(r.U64())}
@@ -812,7 +812,7 @@ func TestVerifC05(t *testing.T) {
 	if vfThorough() {
 		sizes = []int{512, 512, 512, 1024, 1024, 2048, 4096, 4096, 8192, 16384, 32768, 65536}
 	}
-	rounds := vfScale(1, 4)
+	rounds := vfScale(1, 6)
 	for round := 0; round < rounds; round++ {
 		for _, ps := range sizes {
 			g := c05GenReal(t, r, dir, ps, false)
